@@ -145,7 +145,8 @@ func c12(run *ev.Run) int {
 		// a read limit keeps mis-dispatched bodies (read as lying envelopes) cheap
 		// several interceptor-carrying options, shared by the four handlers the way a
 		// generated service constructor shares them between its procedures
-		hs := svc.Handlers(reg, append(append([]connect.HandlerOption{}, j.set.hopts...), connect.WithInterceptors(rec), connect.WithInterceptors(noopIcept{}), connect.WithInterceptors(noopIcept{}), connect.WithReadMaxBytes(1<<20))...)
+		lay := c12Layout(rec, ji)
+		hs := svc.Handlers(reg, append(append([]connect.HandlerOption{}, j.set.hopts...), lay[0], lay[1], lay[2], connect.WithReadMaxBytes(1<<20))...)
 		h := hs[j.kind]
 		streaming := j.kind != svc.Unary
 		accepted := refcodec.AcceptedContentTypes(streaming, j.set.names)
@@ -334,7 +335,8 @@ func c12ClientSpecs(run *ev.Run) {
 						}
 						hrec, crec := newSpecRecorder(), newSpecRecorder()
 						reg := svc.NewRegistry()
-						hs := svc.Handlers(reg, append(append([]connect.HandlerOption{}, set.hopts...), connect.WithInterceptors(hrec), connect.WithInterceptors(noopIcept{}), connect.WithInterceptors(noopIcept{}), connect.WithReadMaxBytes(1<<20))...)
+						lay := c12Layout(hrec, len(key))
+						hs := svc.Handlers(reg, append(append([]connect.HandlerOption{}, set.hopts...), lay[0], lay[1], lay[2], connect.WithReadMaxBytes(1<<20))...)
 						lb := &wire.Loopback{Handler: hs[kind]}
 						opts := svc.ProtoOpts(protocol, "proto")
 						switch codec {
@@ -344,7 +346,9 @@ func c12ClientSpecs(run *ev.Run) {
 						default:
 							opts = append(opts, connect.WithCodec(namedCodec{codec}))
 						}
-						opts = append(opts, connect.WithInterceptors(crec), connect.WithInterceptors(noopIcept{}), connect.WithInterceptors(noopIcept{}))
+						for _, o := range c12Layout(crec, len(key)+1) {
+							opts = append(opts, o)
+						}
 						cs := svc.NewClientSet(lb, base, opts...)
 						call := reg.New("c12s", &svc.Program{Steps: []svc.Step{{Op: "recvall"}, {Op: "sendsum"}}})
 						cl := cs.Do(context.Background(), kind, call.ID, nil, []*gen.Msg{{Id: 1}})
@@ -458,4 +462,20 @@ func c12OpenBody(run *ev.Run) {
 			}
 		}
 	}
+}
+
+// c12Layout spreads the recording interceptor and two pass-through ones over
+// three interceptor-carrying options. The option values are built once per
+// call and then shared by the four handlers (or clients) of a set, the way a
+// generated service constructor shares them between its procedures; in the
+// second layout the first option carries two interceptors and the recorder
+// arrives with a later one.
+func c12Layout(rec connect.Interceptor, variant int) [3]connect.Option {
+	switch variant % 3 {
+	case 1:
+		return [3]connect.Option{connect.WithInterceptors(noopIcept{}, noopIcept{}), connect.WithInterceptors(rec), connect.WithInterceptors(noopIcept{})}
+	case 2:
+		return [3]connect.Option{connect.WithInterceptors(noopIcept{}, noopIcept{}), connect.WithInterceptors(noopIcept{}), connect.WithInterceptors(rec, noopIcept{})}
+	}
+	return [3]connect.Option{connect.WithInterceptors(rec), connect.WithInterceptors(noopIcept{}), connect.WithInterceptors(noopIcept{})}
 }
